@@ -26,6 +26,7 @@ def shape_mm(rng, k):
     if rng.random() < .5:
         mm.add_feat(owner=a, name='', ref=False, many=rng.random() < .5, ordered=True, unique=rng.random() < .5,
                     cont=False, typ=('dt', rng.choice(store.DTYPES)))
+    store.add_falsy(rng, mm)
     return mm
 
 
@@ -215,6 +216,8 @@ def mm_from_lines(lines):
             kv = dict(w.split('=') for w in ws[3:])
             sup = [] if kv['supers'] == '-' else [int(x) for x in kv['supers'].split(',')]
             mm.classes.append((int(ws[2]), kv['abstract'] == '1', sup))
+            if kv.get('falsy') == '1':
+                mm.falsy.add(int(ws[2]))
         elif ws[:2] == ['mm', 'feat']:
             kv = dict(w.split('=', 1) for w in ws[3:])
             t = kv['type'].split(':')
